@@ -342,7 +342,7 @@ func (m *rcl) touchesReader(f *ssa.Function, depth int) bool {
 func (m *rcl) valSet(c *rclConf, v ssa.Value) aset {
 	if k, ok := v.(*ssa.Const); ok {
 		if k.Value != nil && k.Value.Kind() == constant.Int {
-			if r, ok := constant.Int64Val(k.Value); ok {
+			if r, ok := cInt64(k.Value); ok {
 				if s := m.ra.single(rune(r)); !s.empty() {
 					return s
 				}
@@ -448,7 +448,7 @@ func (m *rcl) condSets(cond ssa.Value, depth int) (v ssa.Value, t, f aset, ok bo
 // or nothing is known.
 func (m *rcl) evalCond(c *rclConf, cond ssa.Value) int8 {
 	if k, ok := cond.(*ssa.Const); ok && k.Value != nil && k.Value.Kind() == constant.Bool {
-		if constant.BoolVal(k.Value) {
+		if cBool(k.Value) {
 			return 1
 		}
 		return 2
@@ -584,7 +584,7 @@ func (m *rcl) analyse(fn *ssa.Function, flag int8, pend aset, params []aset, dep
 		if retBool && len(x.Results) == 1 {
 			switch rv := x.Results[0].(type) {
 			case *ssa.Const:
-				if rv.Value != nil && constant.BoolVal(rv.Value) {
+				if rv.Value != nil && cBool(rv.Value) {
 					ret = 1
 				} else {
 					ret = 2
